@@ -2,6 +2,7 @@ package harness
 
 import (
 	"bytes"
+	"crypto/elliptic"
 	"crypto/sha256"
 	"fmt"
 	"math/big"
@@ -12,6 +13,7 @@ import (
 	"testing"
 
 	"github.com/nspcc-dev/neo-go/pkg/config"
+	"github.com/nspcc-dev/neo-go/pkg/core/block"
 	"github.com/nspcc-dev/neo-go/pkg/core/native/nativenames"
 	"github.com/nspcc-dev/neo-go/pkg/core/native/noderoles"
 	"github.com/nspcc-dev/neo-go/pkg/core/state"
@@ -20,6 +22,7 @@ import (
 	"github.com/nspcc-dev/neo-go/pkg/crypto/keys"
 	"github.com/nspcc-dev/neo-go/pkg/neotest"
 	"github.com/nspcc-dev/neo-go/pkg/neotest/chain"
+	"github.com/nspcc-dev/neo-go/pkg/smartcontract"
 	"github.com/nspcc-dev/neo-go/pkg/util"
 	"github.com/nspcc-dev/neo-go/pkg/vm/stackitem"
 	"github.com/nspcc-dev/neo-go/pkg/wallet"
@@ -113,7 +116,9 @@ type gasEnv struct {
 	payer                                   neotest.Signer
 	users                                   []*wallet.Account // U0..U3: ordinary users / candidates
 	alpha                                   []*wallet.Account // keys of the neofs alphabet list (notary-disabled mode)
-	irKeys                                  []*wallet.Account // designated inner ring
+	irKeys                                  []*wallet.Account // inner ring designated at setup
+	irPool                                  []*wallet.Account // keys the inner ring is drawn from (IR0..IR9)
+	alphaPool                               []*wallet.Account // keys the stored alphabet list is drawn from (A0..A6)
 	neofs, processing, proxy, token, accept util.Uint160
 	alphabets                               []util.Uint160
 	proxyAddr                               util.Uint160 // what the Alphabet contracts were given as proxy
@@ -152,12 +157,14 @@ func newGasEnv(t testing.TB, cfg gasEnvCfg) *gasEnv {
 	for i := 0; i < 4; i++ {
 		g.users = append(g.users, gasKey("user", i))
 	}
-	for i := 0; i < cfg.NAlpha; i++ {
-		g.alpha = append(g.alpha, gasKey("alpha", i))
+	for i := 0; i < 7; i++ {
+		g.alphaPool = append(g.alphaPool, gasKey("alpha", i))
 	}
-	for i := 0; i < cfg.IR; i++ {
-		g.irKeys = append(g.irKeys, gasKey("ir", i))
+	g.alpha = g.alphaPool[:cfg.NAlpha]
+	for i := 0; i < 10; i++ {
+		g.irPool = append(g.irPool, gasKey("ir", i))
 	}
+	g.irKeys = append(g.irKeys, g.irPool[:cfg.IR]...)
 	sort.Slice(g.irKeys, func(i, j int) bool { return g.irKeys[i].PublicKey().Cmp(g.irKeys[j].PublicKey()) < 0 })
 
 	vh := e.Validator.ScriptHash()
@@ -265,11 +272,11 @@ func newGasEnv(t testing.TB, cfg gasEnvCfg) *gasEnv {
 		add(fmt.Sprintf("U%d", i), u.ScriptHash().BytesBE())
 		g.signers[fmt.Sprintf("U%d", i)] = neotest.NewSingleSigner(u)
 	}
-	for i, a := range g.alpha {
+	for i, a := range g.alphaPool {
 		add(fmt.Sprintf("A%d", i), a.ScriptHash().BytesBE())
 		g.signers[fmt.Sprintf("A%d", i)] = neotest.NewSingleSigner(a)
 	}
-	for i, a := range g.irKeys {
+	for i, a := range g.irPool {
 		add(fmt.Sprintf("IR%d", i), a.ScriptHash().BytesBE())
 		g.signers[fmt.Sprintf("IR%d", i)] = neotest.NewSingleSigner(a)
 	}
@@ -381,6 +388,10 @@ type gasOp struct {
 	Signers []string `json:"signers"` // names, besides the payer
 	// tokenPay/directPay: the `from` argument is Null (From is empty then)
 	FromNull bool `json:"from_null,omitempty"`
+	// Pre: a RoleManagement.designateAsRole(NeoFSAlphabet, Pre) transaction placed
+	// in the SAME block just before this one (it is in force from the next block).
+	// Kind "designate" is the same transaction in a block of its own (Keys).
+	Pre [][]byte `json:"pre_designate,omitempty"`
 }
 
 func (o gasOp) String() string {
@@ -407,8 +418,21 @@ func (o gasOp) String() string {
 		s += "id=" + Hex(o.ID) + ",key=" + string(o.Key) + ",val=" + Hex(o.Val) + ","
 	case "alphabetUpdate", "bind", "unbind":
 		s += fmt.Sprintf("id=%s,nkeys=%d,", Hex(o.ID), len(o.Keys))
+	case "designate":
+		s += "innerRing=" + keyNames(o.Keys) + ","
+	}
+	if o.Pre != nil {
+		s += "sameBlockAfterDesignate=" + keyNames(o.Pre) + ","
 	}
 	return s + fmt.Sprintf("signers=%v)", o.Signers)
+}
+
+func keyNames(ks [][]byte) string {
+	var xs []string
+	for _, k := range ks {
+		xs = append(xs, Hex(k)[:8])
+	}
+	return "[" + strings.Join(xs, " ") + "]"
 }
 
 type gasEv struct {
@@ -437,6 +461,7 @@ type gasObs struct {
 	txhash    []byte
 	minted    *big.Int
 	entryHash []byte
+	ir        [][]byte // Inner Ring in force for the block of the transaction
 }
 
 func (g *gasEnv) readKeys(h util.Uint160, method string, args ...any) [][]byte {
@@ -467,6 +492,12 @@ func (g *gasEnv) prepare(op gasOp) *transaction.Transaction {
 	sg := []neotest.Signer{g.payer}
 	for _, n := range op.Signers {
 		s, ok := g.signers[n]
+		if n == "fsalphaCur" {
+			if s = g.fsAlphaCurSigner(); s == nil {
+				s = g.signers["fsalpha"]
+			}
+			ok = true
+		}
 		require.True(g.T, ok, n)
 		sg = append(sg, s)
 	}
@@ -514,12 +545,59 @@ func (g *gasEnv) prepare(op gasOp) *transaction.Transaction {
 		return g.PrepareTx(sg, g.neofs, "setConfig", op.ID, op.Key, op.Val)
 	case "alphabetUpdate":
 		return g.PrepareTx(sg, g.neofs, "alphabetUpdate", op.ID, keys)
+	case "designate":
+		return g.designateTx(op.Keys)
 	case "emit":
 		return g.PrepareTx(sg, h(op.To), "emit")
 	case "verify":
 		return g.PrepareTx(sg, h(op.To), "verify")
 	}
 	panic(op.Kind)
+}
+
+// designateTx: the committee designates the Inner Ring (role NeoFSAlphabet);
+// fees are paid by the payer.
+func (g *gasEnv) designateTx(ks [][]byte) *transaction.Transaction {
+	ka := make([]any, len(ks))
+	for i, k := range ks {
+		ka[i] = k
+	}
+	return g.PrepareTx([]neotest.Signer{g.payer, g.E.Committee}, g.E.NativeHash(g.T, nativenames.Designation),
+		"designateAsRole", int64(noderoles.NeoFSAlphabet), ka)
+}
+
+// fsAlphaCurSigner: the 2n/3+1 multi-signature account of the Alphabet list
+// NeoFS stores NOW (nil if a stored key is not one of ours).
+func (g *gasEnv) fsAlphaCurSigner() neotest.Signer {
+	stored := g.readKeys(g.neofs, "alphabetList")
+	var accs []*wallet.Account
+	for _, k := range stored {
+		var found *wallet.Account
+		for _, l := range [][]*wallet.Account{g.alphaPool, g.users, g.committee} {
+			for _, a := range l {
+				if bytes.Equal(a.PublicKey().Bytes(), k) {
+					found = a
+				}
+			}
+		}
+		if found == nil {
+			return nil
+		}
+		dup := false
+		for _, a := range accs {
+			if a == found {
+				dup = true
+			}
+		}
+		if dup {
+			return nil
+		}
+		accs = append(accs, found)
+	}
+	if len(accs) == 0 {
+		return nil
+	}
+	return multisigOf(len(accs)*2/3+1, accs)
 }
 
 func (g *gasEnv) observeState(o *gasObs) {
@@ -544,12 +622,22 @@ func (g *gasEnv) exec(op gasOp) gasObs {
 	if it, err := g.Read(g.neofs, "alphabetAddress"); err == nil {
 		o.fsAlpha = ItemBytes(it)
 	}
+	// the Inner Ring in force for the block this transaction goes into: a
+	// designation made in block h is effective from block h+1
+	o.ir = g.irList()
 	tx := g.prepare(op)
 	o.entryHash = scriptHashOf(tx)
 	for _, s := range tx.Signers {
 		o.wit = append(o.wit, s.Account.BytesBE())
 	}
-	b := g.E.AddNewBlock(g.T, tx)
+	var b *block.Block
+	if op.Pre != nil {
+		pre := g.designateTx(op.Pre)
+		b = g.E.AddNewBlock(g.T, pre, tx)
+		g.E.CheckHalt(g.T, pre.Hash())
+	} else {
+		b = g.E.AddNewBlock(g.T, tx)
+	}
 	r := g.ResultOf(tx, b)
 	o.halt, o.fault, o.txhash, o.height = r.Halt, r.Fault, tx.Hash().BytesBE(), int64(b.Index)-1
 	switch {
@@ -641,10 +729,10 @@ func (g *gasEnv) coqEnv(p *Pool) string {
 	for _, a := range g.users {
 		addKey(a)
 	}
-	for _, a := range g.alpha {
+	for _, a := range g.alphaPool {
 		addKey(a)
 	}
-	for _, a := range g.irKeys {
+	for _, a := range g.irPool {
 		addKey(a)
 	}
 	for _, a := range g.committee {
@@ -679,8 +767,8 @@ func (g *gasEnv) coqInit(p *Pool, o gasObs) string {
 	return fmt.Sprintf("(winit %s %s %s %s %s)", ListLit(bl), BoolLit(g.cfg.NotaryOff), p.Ref(g.processing.BytesBE()), refList(p, o.alpha), ListLit(cf))
 }
 
-func (g *gasEnv) coqOp(p *Pool, op gasOp, o gasObs) string {
-	ctx := fmt.Sprintf("cx %s %s %d %s", refList(p, o.wit), p.Ref(o.fsAlpha), o.height, p.Ref(o.txhash))
+func (g *gasEnv) coqOp(p *Pool, op gasOp, o gasObs, irName string) string {
+	ctx := fmt.Sprintf("cx %s %s %s %d %s", refList(p, o.wit), p.Ref(o.fsAlpha), irName, o.height, p.Ref(o.txhash))
 	var s string
 	switch op.Kind {
 	case "gasTransfer":
@@ -763,9 +851,74 @@ var gasMax = big.NewInt(9000_0000_0000)
 func bn(i int64) *big.Int { return big.NewInt(i) }
 
 type gasGen struct {
-	r    *rand.Rand
-	g    *gasEnv
-	prev gasObs
+	r         *rand.Rand
+	g         *gasEnv
+	prev      gasObs
+	emitSoon  int // emits to issue right after a re-designation of the Inner Ring
+	checkSoon int // verify/withdraw to issue right after a change of the stored Alphabet list
+}
+
+// irChoice picks a new Inner Ring relative to the current one: grow, shrink,
+// disjoint replacement or an arbitrary subset of the pool (never empty).
+func (gg *gasGen) irChoice() [][]byte {
+	r := gg.r
+	g := gg.g
+	cur := g.irList()
+	in := func(k []byte, l [][]byte) bool {
+		for _, x := range l {
+			if bytes.Equal(x, k) {
+				return true
+			}
+		}
+		return false
+	}
+	var others [][]byte
+	for _, a := range g.irPool {
+		if k := a.PublicKey().Bytes(); !in(k, cur) {
+			others = append(others, k)
+		}
+	}
+	r.Shuffle(len(others), func(i, j int) { others[i], others[j] = others[j], others[i] })
+	var out [][]byte
+	switch r.Intn(4) {
+	case 0: // grow
+		out = append(out, cur...)
+		out = append(out, others[:1+r.Intn(min(3, len(others)))]...)
+	case 1: // shrink
+		if len(cur) > 1 {
+			out = append(out, cur[:1+r.Intn(len(cur)-1)]...)
+			break
+		}
+		fallthrough
+	case 2: // disjoint replacement
+		out = append(out, others[:1+r.Intn(min(7, len(others)))]...)
+	default:
+		for _, a := range g.irPool {
+			if r.Intn(2) == 0 && len(out) < 7 {
+				out = append(out, a.PublicKey().Bytes())
+			}
+		}
+		if len(out) == 0 {
+			out = append(out, g.irPool[r.Intn(len(g.irPool))].PublicKey().Bytes())
+		}
+	}
+	return out
+}
+
+// emitOp: emit of Alphabet contract ai by the right committee member.
+func (gg *gasGen) emitOp(ai int) gasOp {
+	g := gg.g
+	sg := []string{"C0"}
+	idx := g.cfg.AlphaIdx[ai]
+	cm := g.committeeKeys()
+	if idx >= 0 && idx < int64(len(cm)) {
+		for i, k := range g.committee {
+			if bytes.Equal(k.PublicKey().Bytes(), cm[idx]) {
+				sg = []string{fmt.Sprintf("C%d", i)}
+			}
+		}
+	}
+	return gasOp{Kind: "emit", To: g.alphabets[ai].BytesBE(), Signers: sg}
 }
 
 func (gg *gasGen) pick(xs ...[]byte) []byte { return xs[gg.r.Intn(len(xs))] }
@@ -886,6 +1039,15 @@ func (gg *gasGen) alphaSigners() []string {
 	if r.Intn(8) == 0 {
 		return []string{gg.uname(r.Intn(3))}
 	}
+	// a member of the list stored NOW (it changes with alphabetUpdate)
+	if cur := gg.prev.alpha; len(cur) > 0 {
+		k := cur[r.Intn(len(cur))]
+		for i, a := range g.alphaPool {
+			if bytes.Equal(a.PublicKey().Bytes(), k) {
+				return []string{fmt.Sprintf("A%d", i)}
+			}
+		}
+	}
 	return []string{fmt.Sprintf("A%d", r.Intn(len(g.alpha)))}
 }
 
@@ -909,8 +1071,37 @@ func feeBytes(r *rand.Rand) []byte {
 func (gg *gasGen) next(step int) gasOp {
 	r := gg.r
 	g := gg.g
-	w := r.Intn(100)
+	if gg.emitSoon > 0 && len(g.alphabets) > 0 {
+		// right after a designation: the very next block, then later ones
+		gg.emitSoon--
+		ai := r.Intn(len(g.alphabets))
+		if gg.balOf(g.alphabets[ai].BytesBE()).Cmp(bn(1000)) < 0 && r.Intn(3) != 0 {
+			gg.emitSoon++
+			return gasOp{Kind: "gasTransfer", From: gg.uhash(0), To: g.alphabets[ai].BytesBE(), Amount: bn(1 + r.Int63n(1_000_000_000)), Data: gasData{Kind: "null"}, Signers: []string{"U0"}}
+		}
+		return gg.emitOp(ai)
+	}
+	if gg.checkSoon > 0 {
+		gg.checkSoon--
+		if g.cfg.NotaryOff && r.Intn(2) == 0 {
+			u := r.Intn(3)
+			return gasOp{Kind: "withdraw", From: gg.uhash(u), Amount: bn(int64(r.Intn(9000))), Signers: []string{gg.uname(u)}}
+		}
+		return gasOp{Kind: "verify", To: g.processing.BytesBE(), Signers: []string{[]string{"fsalphaCur", "fsalpha"}[r.Intn(2)]}}
+	}
+	w := r.Intn(104)
 	switch {
+	case w >= 100 && len(g.alphabets) > 0: // re-designate the Inner Ring
+		ks := gg.irChoice()
+		if r.Intn(3) == 0 {
+			// designation and emit in the SAME block: the old list still counts
+			op := gg.emitOp(r.Intn(len(g.alphabets)))
+			op.Pre = ks
+			gg.emitSoon = 1 + r.Intn(2)
+			return op
+		}
+		gg.emitSoon = 1 + r.Intn(3)
+		return gasOp{Kind: "designate", Keys: ks, Signers: []string{"committee"}}
 	case w < 30: // deposit
 		u := r.Intn(3)
 		op := gasOp{Kind: "gasTransfer", From: gg.uhash(u), To: g.neofs.BytesBE(), Amount: gg.depositAmount(gg.balOf(gg.uhash(u))), Data: gg.depositData(), Signers: []string{gg.uname(u)}}
@@ -1046,7 +1237,7 @@ func (gg *gasGen) next(step int) gasOp {
 		var ks [][]byte
 		for i := 0; i < n; i++ {
 			if len(g.alpha) > 0 {
-				ks = append(ks, g.alpha[r.Intn(len(g.alpha))].PublicKey().Bytes())
+				ks = append(ks, g.alphaPool[r.Intn(len(g.alphaPool))].PublicKey().Bytes())
 			} else {
 				ks = append(ks, g.users[i].PublicKey().Bytes())
 			}
@@ -1054,6 +1245,7 @@ func (gg *gasGen) next(step int) gasOp {
 		if r.Intn(6) == 0 {
 			ks = append(ks, g.junkKey)
 		}
+		gg.checkSoon = 1 + r.Intn(2)
 		return gasOp{Kind: "alphabetUpdate", ID: []byte{0x20, byte(r.Intn(2))}, Keys: ks, Signers: gg.alphaSigners()}
 	case w < 98 && len(g.alphabets) > 0: // emit
 		ai := r.Intn(len(g.alphabets))
@@ -1296,6 +1488,78 @@ func gasCorpus(thorough bool) []gasCorpusEntry {
 			ops = append(ops, gasOp{Kind: "candAdd", Key: g.users[1].PublicKey().Bytes(), Signers: []string{"U1"}})
 			return ops
 		}})
+	// the Inner Ring is re-designated (grow, shrink, disjoint) and emit runs in
+	// the same block, the very next block and later: shares go to the CURRENT
+	// nodes (a designation made in block h counts from block h+1)
+	redesignate := func(g *gasEnv) []gasOp {
+		A := g.alphabets[0].BytesBE()
+		k := func(is ...int) [][]byte {
+			var out [][]byte
+			for _, i := range is {
+				out = append(out, g.irPool[i].PublicKey().Bytes())
+			}
+			return out
+		}
+		fund := func(a int64) gasOp {
+			return gasOp{Kind: "gasTransfer", From: u(g, 0), To: A, Amount: bn(a), Data: null, Signers: []string{"U0"}}
+		}
+		em := gasOp{Kind: "emit", To: A, Signers: []string{"C0"}}
+		emPre := func(ks [][]byte) gasOp { x := em; x.Pre = ks; return x }
+		des := func(ks [][]byte) gasOp { return gasOp{Kind: "designate", Keys: ks, Signers: []string{"committee"}} }
+		return []gasOp{
+			fund(16_0000_0003), em,
+			des(k(1, 2, 3)), em, // disjoint + grow 1 -> 3, very next block
+			fund(16_0000_0003), em, // later
+			fund(16_0000_0003), emPre(k(1)), // shrink in the same block: still 3 nodes
+			fund(16_0000_0003), em, // next block: 1 node
+			des(k(0, 1, 4, 5, 6, 7, 8)), fund(16_0000_0003), em, // grow to 7, two blocks later
+			fund(16_0000_0003), emPre(k(2, 9)), em, // disjoint in the same block, then next block
+			des(k(3)), des(k(4, 5)), fund(999), em, // two designations in a row
+			fund(16_0000_0003), des(k(6, 7, 8)), em, fund(16_0000_0003), em,
+		}
+	}
+	out = append(out, gasCorpusEntry{"emit-redesignate", gasEnvCfg{NC: 1, WFee: i64p(7), CFee: i64p(11), IR: 1, AlphaIdx: []int64{0}}, redesignate})
+	out = append(out, gasCorpusEntry{"emit-redesignate-from-empty", gasEnvCfg{NC: 1, WFee: i64p(7), CFee: i64p(11), IR: 0, AlphaIdx: []int64{0}}, redesignate})
+	// the Alphabet list stored in NeoFS changes (grow, shrink, disjoint): the
+	// very next withdraw pays the CURRENT members, processing.verify wants the
+	// CURRENT 2n/3+1 account
+	alphaChange := func(g *gasEnv) []gasOp {
+		k := func(is ...int) [][]byte {
+			var out [][]byte
+			for _, i := range is {
+				out = append(out, g.alphaPool[i].PublicKey().Bytes())
+			}
+			return out
+		}
+		first := "alpha"
+		if g.cfg.NotaryOff {
+			first = "A0"
+		}
+		wd := gasOp{Kind: "withdraw", From: u(g, 0), Amount: bn(5), Signers: []string{"U0"}}
+		ver := func(sg string) gasOp { return gasOp{Kind: "verify", To: g.processing.BytesBE(), Signers: []string{sg}} }
+		upd := func(id byte, ks [][]byte, sg string) gasOp {
+			return gasOp{Kind: "alphabetUpdate", ID: []byte{0x30, id}, Keys: ks, Signers: []string{sg}}
+		}
+		ops := []gasOp{wd, ver("fsalpha"), ver("fsalphaCur"),
+			upd(1, k(1, 2, 3), first), wd, ver("fsalpha"), ver("fsalphaCur")} // disjoint + grow
+		if g.cfg.NotaryOff {
+			// 3 members, threshold 3
+			ops = append(ops, upd(2, k(4), "A1"), wd, upd(2, k(4), "A2"), upd(2, k(4), "A3"), wd, ver("fsalpha"), ver("fsalphaCur"),
+				upd(3, k(4, 5, 6, 0, 1), "A4"), wd, ver("fsalphaCur"), // grow
+				upd(4, k(5), "A0"), upd(4, k(5), "A1"), upd(4, k(5), "A6"), upd(4, k(5), "A5"), wd, ver("fsalphaCur"))
+		} else {
+			ops = append(ops, upd(2, k(4), "alpha"), wd, ver("fsalpha"), ver("fsalphaCur"),
+				upd(3, k(4, 5, 6, 0, 1), "alpha"), wd, ver("fsalphaCur"))
+		}
+		for _, t := range [][]byte{g.proxy.BytesBE(), g.alphabets[0].BytesBE()} {
+			for _, sg := range []string{"alpha", "committee", "fsalphaCur", "U0"} {
+				ops = append(ops, gasOp{Kind: "verify", To: t, Signers: []string{sg}})
+			}
+		}
+		return ops
+	}
+	out = append(out, gasCorpusEntry{"alphabet-change-nonotary", gasEnvCfg{NC: 1, NotaryOff: true, NAlpha: 1, WFee: i64p(13), CFee: i64p(1), IR: 1, AlphaIdx: []int64{0}}, alphaChange})
+	out = append(out, gasCorpusEntry{"alphabet-change-notary", gasEnvCfg{NC: 4, NAlpha: 2, WFee: i64p(13), CFee: i64p(1), IR: 1, AlphaIdx: []int64{0}}, alphaChange})
 	// accept-only is a function of the CALLER alone (NeoFS: plus the marker):
 	// every receiver x every caller kind x every claimed sender x data shapes
 	out = append(out, gasCorpusEntry{"accept-only-from", gasEnvCfg{NC: 1, WFee: i64p(7), CFee: i64p(11), IR: 1, AlphaIdx: []int64{0}},
@@ -1565,7 +1829,7 @@ func (m *gasMon) inWit(o gasObs, a []byte) bool {
 
 func (m *gasMon) accOfKey(k []byte) []byte {
 	g := m.g
-	for _, l := range [][]*wallet.Account{g.users, g.alpha, g.irKeys, g.committee} {
+	for _, l := range [][]*wallet.Account{g.users, g.alphaPool, g.irPool, g.committee} {
 		for _, a := range l {
 			if bytes.Equal(a.PublicKey().Bytes(), k) {
 				return a.ScriptHash().BytesBE()
@@ -1818,13 +2082,35 @@ func (m *gasMon) step(op gasOp, o gasObs) {
 		if o.halt && !perm {
 			m.violate(what + ": emit halted without the witness of committee[index] of this contract")
 		}
-		irl := g.irList()
+		irl := o.ir // the CURRENT Inner Ring: the one in force for this block
 		gb := new(big.Int).Add(m.balOf(op.To), o.minted)
 		half := new(big.Int).Quo(gb, bn(2))
 		P := g.proxyAddr.BytesBE()
 		pacc, pdep, prcv := m.accepts(P, "gas", op.To, half, gasData{})
 		want := perm && half.Sign() > 0 && len(irl) > 0 && pacc
 		mustHalt(want, "emit: permission, g >= 2, N >= 1, proxy accepts")
+		if o.halt {
+			// who was paid must be a node of the Inner Ring in force for THIS block
+			for pi, a := range g.irPool {
+				cur := false
+				for _, k := range irl {
+					if bytes.Equal(k, a.PublicKey().Bytes()) {
+						cur = true
+					}
+				}
+				acc := a.ScriptHash().BytesBE()
+				var d *big.Int
+				for i, p := range g.parties {
+					if bytes.Equal(p, acc) {
+						d = new(big.Int).Sub(o.bal[i], m.prev.bal[i])
+					}
+				}
+				if d != nil && d.Sign() != 0 && !cur {
+					m.violate(fmt.Sprintf("%s: emit paid %s to IR%d which is not in the Inner Ring in force for this block %s (a designation made in block h counts from block h+1): %s",
+						what, d, pi, keyNames(irl), op.String()))
+				}
+			}
+		}
 		if o.halt && want {
 			rest := new(big.Int).Sub(gb, half)
 			per := new(big.Int).Mul(rest, bn(7))
@@ -1862,7 +2148,42 @@ func (m *gasMon) step(op gasOp, o gasObs) {
 				m.violate(what + ": emit created or lost GAS")
 			}
 		}
-	default: // candRemove bind unbind setConfig alphabetUpdate verify: never move GAS
+	case "verify":
+		// verify reads the committee (proxy, alphabet) or the Alphabet list NeoFS stores NOW (processing)
+		var want, wantFault bool
+		switch m.kindOf(op.To) {
+		case "processing":
+			var pubs keys.PublicKeys
+			for _, k := range m.prev.alpha {
+				pk, err := keys.NewPublicKeyFromBytes(k, elliptic.P256())
+				if err != nil {
+					wantFault = true
+					break
+				}
+				pubs = append(pubs, pk)
+			}
+			if !wantFault {
+				sc, err := smartcontract.CreateMultiSigRedeemScript(len(pubs)*2/3+1, pubs)
+				if err != nil {
+					wantFault = true
+				} else {
+					want = m.inWit(o, hash.Hash160(sc).BytesBE())
+				}
+			}
+		default:
+			want = m.inWit(o, g.alphaMulti.ScriptHash().BytesBE()) || m.inWit(o, g.E.Committee.ScriptHash().BytesBE())
+		}
+		if wantFault {
+			mustHalt(false, "verify with a stored key that is not a curve point")
+		} else if !o.halt || o.ret != VBool(want) {
+			m.violate(fmt.Sprintf("%s: verify answered %s, the CURRENT committee/Alphabet list demands %v: %s", what, o.ret, want, op.String()))
+		}
+	case "designate":
+		mustHalt(true, "the committee designates the Inner Ring")
+		if len(o.evs) != 0 {
+			m.violate(what + ": a designation produced GAS/NeoFS notifications")
+		}
+	default: // candRemove bind unbind setConfig alphabetUpdate: never move GAS
 		for _, e := range o.evs {
 			if e.kind == 0 || e.kind == 1 || e.kind == 2 || e.kind == 3 {
 				m.violate(what + ": unexpected GAS/Deposit/Withdraw/Cheque notification")
@@ -1941,7 +2262,7 @@ func TestC19(t *testing.T) {
 		"non-trivial = the history contains at least one accepted GAS movement and at least one refusal/fault; " +
 		"distinct = by deployment configuration + canonical op/outcome/amount/data string"
 	thorough := Tier() == "thorough"
-	nh, minOps, maxOps := 44, 8, 18
+	nh, minOps, maxOps := 34, 8, 18
 	if thorough {
 		nh, minOps, maxOps = 400, 10, 30
 	}
@@ -1985,7 +2306,18 @@ func TestC19(t *testing.T) {
 		gg.prev = o0
 		mon := &gasMon{g: g, st: st, prev: o0, init: new(big.Int).Set(o0.bal[0]), received: new(big.Int), paid: new(big.Int)}
 		cm := g.committeeKeys()
-		irl := g.irList()
+		irNames := map[string]string{}
+		var irDefs []string
+		irName := func(l [][]byte) string {
+			k := refList(pool, l)
+			if n, ok := irNames[k]; ok {
+				return n
+			}
+			n := fmt.Sprintf("ir%d", len(irNames))
+			irNames[k] = n
+			irDefs = append(irDefs, fmt.Sprintf("let %s := %s in", n, k))
+			return n
+		}
 		var steps []string
 		var sig strings.Builder
 		fmt.Fprintf(&sig, "%+v|", cfg)
@@ -1998,7 +2330,11 @@ func TestC19(t *testing.T) {
 			}
 			o := g.exec(op)
 			mon.step(op, o)
-			steps = append(steps, fmt.Sprintf("(%s, %s)", g.coqOp(pool, op, o), g.coqObs(pool, gg.prev, o)))
+			if op.Kind != "designate" {
+				// a designation is an action of the environment: the model sees it
+				// as the Inner Ring of the contexts of the following blocks
+				steps = append(steps, fmt.Sprintf("(%s, %s)", g.coqOp(pool, op, o, irName(o.ir)), g.coqObs(pool, gg.prev, o)))
+			}
 			st.Evaluations++
 			st.OpHistogram[op.Kind]++
 			oc := "fault"
@@ -2022,7 +2358,7 @@ func TestC19(t *testing.T) {
 			}
 			st.OutcomeHistogram[op.Kind+"/"+oc]++
 			if op.Kind == "emit" && o.halt {
-				cov["emit_halted_by_inner_ring_size"][fmt.Sprint(len(irl))]++
+				cov["emit_halted_by_inner_ring_size"][fmt.Sprint(len(o.ir))]++
 				if gb := new(big.Int).Add(gg.balOf(op.To), o.minted); gb.Cmp(bn(20)) < 0 {
 					cov["emit_halted_g_below_20"][gb.String()]++
 				}
@@ -2040,9 +2376,9 @@ func TestC19(t *testing.T) {
 		if len(st.Samples) < 3 && (name == "deposit-boundaries" || name == "lifecycle-nonotary-4" || name == "random-0") {
 			st.Samples = append(st.Samples, map[string]any{"history": name, "cfg": cfg, "first_ops": sample})
 		}
-		cx := fmt.Sprintf("fun w fa h tx => mkCtx w %s %s fa %s %s h tx", pool.Ref(g.alphaMulti.ScriptHash().BytesBE()),
-			pool.Ref(g.E.Committee.ScriptHash().BytesBE()), refList(pool, cm), refList(pool, irl))
-		c := fmt.Sprintf("(let cx := %s in\n (%s, %s, %s,\n %s))", cx, g.coqEnv(pool), refList(pool, g.parties), g.coqInit(pool, o0), ListLit(steps))
+		cx := fmt.Sprintf("fun w fa ir h tx => mkCtx w %s %s fa %s ir h tx", pool.Ref(g.alphaMulti.ScriptHash().BytesBE()),
+			pool.Ref(g.E.Committee.ScriptHash().BytesBE()), refList(pool, cm))
+		c := fmt.Sprintf("(let cx := %s in %s\n (%s, %s, %s,\n %s))", cx, strings.Join(irDefs, " "), g.coqEnv(pool), refList(pool, g.parties), g.coqInit(pool, o0), ListLit(steps))
 		size += len(c)
 		cf.Cases = append(cf.Cases, c)
 	}
